@@ -122,7 +122,11 @@ func (p *c18Plan) paramsStep() c18Step {
 		v := new(big.Int).SetUint64(p.r.Next() % 1_000_000_000_000_000_001)
 		st.Share = v.String()
 	}
-	switch p.r.Pick(4, 3, 2, 1) {
+	switch p.r.Pick(8, 6, 4, 2, 3) {
+	case 4:
+		// repeated entries (accepted by Params.Validate)
+		a := p.r.Intn(3)
+		st.Allowed = [][]int{{a, a}, {a, (a + 1) % 3, a}, {a, a, a}, {(a + 2) % 3, a, a}}[p.r.Intn(4)]
 	case 1:
 		st.Allowed = []int{p.r.Intn(3)}
 	case 2:
